@@ -64,12 +64,14 @@ struct TestServer : public SocketServer
 	std::mutex mu;
 	std::map<std::string, int> served;
 	int badSockets;
+	int serveCalls;
 	volatile bool stopReturned;
 	int lateServes;
-	TestServer() : badSockets(0), stopReturned(false), lateServes(0) {}
+	TestServer() : badSockets(0), serveCalls(0), stopReturned(false), lateServes(0) {}
 	const volatile void* countAddr() { return &_numClients; }
 	void serve(Socket client)
 	{
+		{ std::lock_guard<std::mutex> lk(mu); serveCalls++; }
 		if (stopReturned) { std::lock_guard<std::mutex> lk(mu); lateServes++; }
 		if (client.handle() < 0) { std::lock_guard<std::mutex> lk(mu); badSockets++; }   // not a connection at all
 		String line;
@@ -179,12 +181,13 @@ static std::string runScenario(bool seq, bool unixSock, bool both, int nclients,
 	usleep(2000);
 	// copy the oracle data, then destroy the server while client threads may still be around
 	std::map<std::string, int> served;
-	int late, badsock;
+	int late, badsock, serveCalls;
 	{
 		std::lock_guard<std::mutex> lk(server->mu);
 		served = server->served;
 		late = server->lateServes;
 		badsock = server->badSockets;
+		serveCalls = server->serveCalls;
 	}
 	delete server;
 	usleep(30000);   // a thread still using the destroyed server would be caught by ASan here
@@ -217,7 +220,12 @@ static std::string runScenario(bool seq, bool unixSock, bool both, int nclients,
 			repliesOk = 0;
 		}
 	}
-	std::string out = "served-exactly-once=" + str(once) + " replies=" + str(repliesOk) + " running=" + str(runningAfter ? 1 : 0) + " late=" + str(late) + " badsock=" + str(badsock);
+	// every connection the accept loop took from the listening socket (hook 20) must have been passed to serve() once,
+	// whether or not its client ever sent anything
+	int acceptedAll = 0;
+	for (size_t i = 0; i < tr.size(); i++) if (tr[i].kind == 20) acceptedAll++;
+	int allServed = (serveCalls == acceptedAll) ? 1 : 0;
+	std::string out = "served-exactly-once=" + str(once && allServed ? 1 : 0) + " replies=" + str(repliesOk) + " running=" + str(runningAfter ? 1 : 0) + " late=" + str(late) + " badsock=" + str(badsock);
 	if (!wantTrace) return out;
 	// ---- trace encoding
 	std::map<const volatile void*, int> handlerOf;   // SockClientThread* -> connection index
